@@ -35,7 +35,7 @@ func TestMain(m *testing.M) {
 		"non-trivial = interrupt raised while the interpreter's call depth was >= 2 or inside a deferred function; distinct = distinct (probe, options, entry, kind, k)")
 	rec.Assume("an interrupt raised while an evaluation runs must surface as panic(base.SigInterrupt) of that evaluation; the progress counter of the interrupted code may advance by at most 64 after the raise (deferred functions pending at that moment run to completion as for any panic, their work is counted separately)")
 	rec.Assume("asynchronous part: 'interrupt was raised' is taken as the first hook call that sees the flag set by the second goroutine after its Interrupt call returned (sequentially consistent atomics), so no wall clock is involved; not run under -race (the async flag is written non-atomically by design)")
-	rec.Assume("oracle O6 afterwards: the C12 battery of 45 later evaluations and a complete re-run of the probe compared with a reference interpreter that received the same definitions and variable values and never was interrupted")
+	rec.Assume("oracle O6 afterwards: the C12 battery of 48 later evaluations and a complete re-run of the probe compared with a reference interpreter that received the same definitions and variable values and never was interrupted")
 	os.Exit(vlib.Main(m, rec))
 }
 
